@@ -24,20 +24,20 @@ import (
 )
 
 var (
-	vModel   = map[string]uint64{}
-	vParams  = map[string]int{}
-	vSeq     int
-	vFailed  []string
-	vReached = map[string]int{}
+	vrtModel   = map[string]uint64{}
+	vrtParams  = map[string]int{}
+	vrtSeq     int
+	vrtFailed  []string
+	vrtReached = map[string]int{}
 )
 
-func vNext(tag string) uint64 {
-	name := fmt.Sprintf("in%d_%s", vSeq, vSanitize(tag))
-	vSeq++
-	return vModel[name] // absent = unconstrained by the model: any value will do
+func vrtNext(tag string) uint64 {
+	name := fmt.Sprintf("in%d_%s", vrtSeq, vrtSanitize(tag))
+	vrtSeq++
+	return vrtModel[name] // absent = unconstrained by the model: any value will do
 }
 
-func vSanitize(s string) string {
+func vrtSanitize(s string) string {
 	b := []byte(s)
 	for i, c := range b {
 		if !(c >= 'a' && c <= 'z' || c >= 'A' && c <= 'Z' || c >= '0' && c <= '9' || c == '_') {
@@ -47,43 +47,43 @@ func vSanitize(s string) string {
 	return string(b)
 }
 
-func vNondetU8(tag string) uint8   { return uint8(vNext(tag)) }
-func vNondetU16(tag string) uint16 { return uint16(vNext(tag)) }
-func vNondetU32(tag string) uint32 { return uint32(vNext(tag)) }
-func vNondetU64(tag string) uint64 { return vNext(tag) }
-func vNondetI64(tag string) int64  { return int64(vNext(tag)) }
-func vNondetBool(tag string) bool  { return vNext(tag) != 0 }
+func vNondetU8(tag string) uint8   { return uint8(vrtNext(tag)) }
+func vNondetU16(tag string) uint16 { return uint16(vrtNext(tag)) }
+func vNondetU32(tag string) uint32 { return uint32(vrtNext(tag)) }
+func vNondetU64(tag string) uint64 { return vrtNext(tag) }
+func vNondetI64(tag string) int64  { return int64(vrtNext(tag)) }
+func vNondetBool(tag string) bool  { return vrtNext(tag) != 0 }
 func vChoose(tag string, n int) int {
 	if n <= 1 {
 		return 0
 	}
-	return int(vNext(tag))
+	return int(vrtNext(tag))
 }
-func vParam(name string) int { return vParams[name] }
+func vParam(name string) int { return vrtParams[name] }
 
-type vAssumeFailed struct{}
-type vCrashed struct{}
+type vrtAssumeFailed struct{}
+type vrtCrashed struct{}
 
 func vAssume(ok bool) {
 	if !ok {
-		panic(vAssumeFailed{})
+		panic(vrtAssumeFailed{})
 	}
 }
 func vAssert(ok bool, tag string) {
 	if !ok {
-		vFailed = append(vFailed, tag)
+		vrtFailed = append(vrtFailed, tag)
 	}
 }
-func vReach(tag string)            { vReached[tag]++ }
+func vReach(tag string)            { vrtReached[tag]++ }
 func vRegion(name string, c bool)  {}
 func vNote(s string)               {}
 func vIsSym(x any) bool            { return false }
 func vHang(what string)            { panic("VERIF: hang: " + what) }
-func vCrash()                      { panic(vCrashed{}) }
+func vCrash()                      { panic(vrtCrashed{}) }
 func vCatchCrash(f func()) (crashed bool) {
 	defer func() {
 		if r := recover(); r != nil {
-			if _, ok := r.(vCrashed); ok {
+			if _, ok := r.(vrtCrashed); ok {
 				crashed = true
 				return
 			}
@@ -117,28 +117,28 @@ func TestVerifReplay(t *testing.T) {
 	if err := json.Unmarshal(data, &c); err != nil {
 		t.Fatal(err)
 	}
-	vModel, vParams = c.Model, c.Params
-	h, ok := vHarnesses[c.Harness]
+	vrtModel, vrtParams = c.Model, c.Params
+	h, ok := vrtHarnesses[c.Harness]
 	if !ok {
 		t.Fatalf("unknown harness %s", c.Harness)
 	}
 	func() {
 		defer func() {
 			if r := recover(); r != nil {
-				if _, ok := r.(vAssumeFailed); ok {
+				if _, ok := r.(vrtAssumeFailed); ok {
 					fmt.Println("VERIF-REPLAY: ASSUMPTION-FAILED")
 					return
 				}
-				vFailed = append(vFailed, fmt.Sprintf("escaping-panic: %v", r))
+				vrtFailed = append(vrtFailed, fmt.Sprintf("escaping-panic: %v", r))
 			}
 		}()
 		h()
 	}()
-	for _, f := range vFailed {
+	for _, f := range vrtFailed {
 		fmt.Printf("VERIF-REPLAY: FAILED %s\n", f)
 	}
-	if len(vFailed) > 0 {
-		t.Fatalf("REPRODUCED natively: failed assertions %v (expected %q)", vFailed, c.Tag)
+	if len(vrtFailed) > 0 {
+		t.Fatalf("REPRODUCED natively: failed assertions %v (expected %q)", vrtFailed, c.Tag)
 	}
 	fmt.Println("VERIF-REPLAY: NOT-REPRODUCED")
 }
@@ -179,7 +179,7 @@ func writeReplay(verif, repo string, u *Unit, dir string, fn, tag string, params
 		rep[filepath.Join(repo, u.Pkg, "zz_verif_"+base+"_test.go")] = f
 	}
 	var rt strings.Builder
-	rt.WriteString("package " + pkgName + "\n" + replayRuntime + "\nvar vHarnesses = map[string]func(){\n")
+	rt.WriteString("package " + pkgName + "\n" + replayRuntime + "\nvar vrtHarnesses = map[string]func(){\n")
 	for _, f := range fns {
 		fmt.Fprintf(&rt, "\t%q: %s,\n", f, f)
 	}
